@@ -140,7 +140,9 @@ def put (C : Codec) (H : Bytes → String) (d : Disk) (kind : Kind) (hash : Stri
   if size < 0 then (d, .e400)
   else if size > d.cfg.maxBlobSize then (d, .e400)
   else if hash.length ≠ 64 then (d, .e400)
-  else if kind = .cas ∧ size = 0 ∧ hash = emptySha256 then (d, .ok)
+  else if kind = .cas ∧ size = 0 ∧ hash = emptySha256 then
+    -- the empty blob is never stored, but what is uploaded under its digest must be empty
+    (if s.data.isEmpty then (d, .ok) else (d, .e400))
   else
     let (l1, rerr) := if size > 0 then reserve d.lru size else (d.lru, none)
     match rerr with
